@@ -990,13 +990,14 @@ class Gen:
     def s_do(self, header=None):
         name = self.free_loopvars.pop(0)
         var = self.hidden_loopvars[name]
-        self.vars[name] = var
         if header is None:
+            # the loop variable is not visible in its own header
             head, rng = self.loop_header(var)
             header = (head.split("=", 1)[1], rng)
         else:
             head = f"do {var.name} ={header[0]}"
             rng = header[1]
+        self.vars[name] = var
         var.rng = rng
         var.role = "loop"
         self.loop_stack.append(var)
